@@ -78,6 +78,12 @@ CHECKS = {
   text="(1) For each of is_char, is_name_start_char, is_name_char, is_pubid_char, is_enc_name and the *_except wrappers, z3 decides equality with the transcribed production for every Unicode scalar value (complete over the domain); Kani decides the same on the compiled functions for every char. (2) For name, nmtoken, pi_target, enc_name, ncname, qname and every string of exactly L <= N scalar values (N=8 quick / 12 thorough) z3 decides that the production consumes exactly the longest prefix in Name / Nmtoken / PITarget / EncName / NCName / QName.",
   note="Names longer than N are outside. nom leaf/combinator models and helper::take_except as recognised structurally from source are trusted (validated concretely in C01/C02's translator validation). The first-character defect of `name`/`pi_target` is a listed known finding: those two obligations are decided against NameChar+ and the finding is re-witnessed and replayed each run.",
   design="3/C18", engine="S-grammar + Kani"),
+ "C19": dict(
+  technique="source-level symbolic execution (S-kernel) of eval_filter_expr / eval_axis_node_test with the real Context push/pop methods and nondeterministic stubs for the sub-evaluators + SMT (z3); counterexamples replayed as query series against one shared context",
+  category="model_checking",
+  text="Context neutrality, the mechanism behind 're-using one evaluation context ... including after an error': for 0..2 (quick) / 0..3 (thorough) predicates, node lists of 0..2/3 opaque nodes, every combination of sub-evaluator outcomes (any boolean, or an error at any call) and an initial stack of depth 0 or 1 with symbolic entries, z3 decides on every path - success or error - that the context's size and position stacks are exactly what they were before the call. The sub-evaluators are these two functions again or context-free, so by induction a later query sees position() and last() as with a fresh context.",
+  note="Partial: determinism of parsing, 'a query does not change the document' and namespace bindings are relations between whole runs over a live document and are outside. Sub-evaluators are stubs (listed in the evidence); node order/duplicates are not modelled.",
+  design="4/C19", engine="S-kernel"),
 }
 
 NA = {
@@ -87,7 +93,6 @@ NA = {
  "C12": "the state is the heap graph itself (child vectors, parent_id, id_map of Rc/Weak items); no symbolic pre-state of it can be built in either engine, and bounded histories from a concrete state would be enumeration, not a solver verdict.",
  "C13": "same state as C12 for every tree mutator. The character-data mutators' semantics are decided under C16, their validation under C15; the panicking factories are a known finding of C15.",
  "C17": "whole-program runs of the xe/xq binaries over process I/O, composing parser, evaluator, DOM mutation and printer: outside bounded symbolic execution of the code by either engine.",
- "C19": "a relation between whole evaluator runs that share a Context and cached order keys (push/pop pairing across `?`, Rc-shared DOM); needs the evaluator over a live document.",
 }
 DEFAULT_NA = "check not built yet (construction in progress)"
 
@@ -98,7 +103,7 @@ m = {
            "baseline_off_cmd": "cd /repo && cargo test --workspace --no-fail-fast --offline", "source_commits": ["1af260d"], "add_only": True},
  "engines": [
   {"name": "S-grammar", "path": "engine/sx/nomsem.py", "serves_properties": ["C01", "C02", "C03", "C06", "C08", "C18"], "kind_free_text": "symbolic executor for the nom grammars read from /repo via engine/srcdump (syn); z3 QF_BV"},
-  {"name": "S-kernel", "path": "engine/sx/kernel.py", "serves_properties": ["C04", "C09", "C11", "C14", "C15", "C16"], "kind_free_text": "path-enumerating symbolic interpreter for small Rust functions read from the syn dump (engine/sx/kstd.py = std models); z3"},
+  {"name": "S-kernel", "path": "engine/sx/kernel.py", "serves_properties": ["C04", "C09", "C11", "C14", "C15", "C16", "C19"], "kind_free_text": "path-enumerating symbolic interpreter for small Rust functions read from the syn dump (engine/sx/kstd.py = std models); z3"},
   {"name": "Kani", "path": "kani/", "serves_properties": ["C18"], "kind_free_text": "Kani 0.68 / CBMC 6.11 harness crate with path dependencies on /repo crates"},
   {"name": "replay", "path": "replay/", "serves_properties": ["C01", "C02"], "kind_free_text": "Rust driver with path dependencies on /repo crates: replays solver models and validates the translator"},
  ],
